@@ -338,11 +338,17 @@ lz4_filter_read(struct archive_read_filter *self, const void **p)
 		}
 		uint32_t number = archive_le32dec(read_buf);
 		__archive_read_filter_consume(self->upstream, 4);
-		if (number == LZ4_MAGICNUMBER)
-			return lz4_filter_read_default_stream(self, p);
-		else if (number == LZ4_LEGACY)
-			return lz4_filter_read_legacy_stream(self, p);
-		else if ((number & ~0xF) == LZ4_SKIPPABLED) {
+		if (number == LZ4_MAGICNUMBER) {
+			ret = lz4_filter_read_default_stream(self, p);
+			/* An empty frame is not the end of the data:
+			 * look for the next frame. */
+			if (ret != 0 || state->stage != SELECT_STREAM)
+				return ret;
+		} else if (number == LZ4_LEGACY) {
+			ret = lz4_filter_read_legacy_stream(self, p);
+			if (ret != 0 || state->stage != SELECT_STREAM)
+				return ret;
+		} else if ((number & ~0xF) == LZ4_SKIPPABLED) {
 			read_buf = __archive_read_filter_ahead(
 				self->upstream, 4, NULL);
 			if (read_buf == NULL) {
